@@ -16,7 +16,7 @@ TECHNIQUE = "runtime monitoring: differential execution of every alternative sol
 CASES = {"quick": 200, "thorough": 8000}
 BUDGET = {"quick": 60, "thorough": 1200}
 CONFIGS = ["iwamoto_nr", "bfsw", "gs", "fdbx", "fdxb", "lightsim2grid", "numba_off", "init_flat", "init_dc", "init_results"]
-FLOORS = {"quick": {"nontrivial": 70, "tags": {("agree:" + c): 20 for c in CONFIGS if c not in ("lightsim2grid",)}, "extras": {"bfsw_certified": 60, "bfsw_core": 30, "bfsw_core_agree": 25},
+FLOORS = {"quick": {"nontrivial": 70, "tags": {("agree:" + c): 20 for c in CONFIGS if c not in ("lightsim2grid",)}, "extras": {"bfsw_certified": 60, "bfsw_core": 50, "bfsw_core_agree": 45},
                     "max_skip_frac": 0.4},
           "thorough": {"nontrivial": 3000, "tags": {("agree:" + c): 800 for c in CONFIGS if c not in ("lightsim2grid",)}, "max_skip_frac": 0.4}}
 RULE = ("seeded random networks (dist_radial, weakly_meshed, multi_island, transmission); the default NR run is the reference; each of "
@@ -133,13 +133,13 @@ def balanced(net):
 
 def run_case(seed, tier, case_no):
     g = netgen.G(seed)
-    profile = g.C(["dist_radial", "dist_radial", "dist_radial", "weakly_meshed", "multi_island", "transmission"])
+    profile = g.C(["dist_radial", "dist_radial", "dist_radial", "dist_radial", "dist_radial", "weakly_meshed", "multi_island", "transmission"])
     over = {"dcline": 0.0, "tabular": 0.2}
     if profile in ("dist_radial", "weakly_meshed"):
         over.update(second_eg=0.0, slack_gen=0.0, gen=0.3, n_gen=(1, 2))
     if profile == "dist_radial" and g.B(0.75):
         # plain radial feeder nets: the core domain of the bfsw clause
-        over.update(gen=0.0, xward=0.0, trafo3w=0.0, open_sw=0.0, oos=0.0, ptap=0.0, z_sw=0.0, imp=0.0, tabular=0.0)
+        over.update(gen=0.0, xward=0.0, trafo3w=0.0, open_sw=0.0, oos=0.0, ptap=0.0, z_sw=0.0, imp=0.0, tabular=0.0, co_slack=0.0)
     net = netgen.rnd_net(seed, profile, over)
     if g.B(0.5):
         # bus numbering that does not follow the feed direction
